@@ -107,9 +107,15 @@ func (cl *CheckpointList) Latest() *Checkpoint {
 // aren't really removed until the next successful Save.
 func (cl *CheckpointList) RetainOnly(ids []uint64) {
 	idsSet := ds.SetOf(ids...)
+	// A retention update only speaks about the checkpoints that existed when it
+	// was decided: checkpoints newer than every listed id are kept.
+	var newestID uint64
+	for _, id := range ids {
+		newestID = max(newestID, id)
+	}
 	nextCheckpoints := make([]*Checkpoint, 0, len(ids))
 	for _, cp := range cl.checkpoints {
-		if idsSet.Has(cp.ID) {
+		if idsSet.Has(cp.ID) || (len(ids) > 0 && cp.ID > newestID) {
 			nextCheckpoints = append(nextCheckpoints, cp)
 		} else {
 			cl.checkpointsPendingRemoval = append(cl.checkpointsPendingRemoval, cp)
